@@ -215,6 +215,11 @@ func opActModule(g *G) (interface{}, []uint64, int, interface{}) {
 			t = []int{0, 24, 255, 100}[g.intn(4)]
 		}
 	}
+	// about 40 % of the cases: the call path of the standard solver - network.ActivateModule on hand-built control nodes,
+	// a SEQUENCE of modules of different fan-in activated one after another (opActModuleSeq)
+	if g.chance(0.4) {
+		return opActModuleSeq(g)
+	}
 	xs, fam := moduleInputs(g)
 	in := map[string]interface{}{"t": t, "xs": bitsOf(xs), "family": fam}
 	cp := append([]float64{}, xs...)
@@ -226,6 +231,149 @@ func opActModule(g *G) (interface{}, []uint64, int, interface{}) {
 		}
 	}
 	return in, nil, 0, map[string]interface{}{"ys": bitsOf(ys), "err": actErrClass(err), "inputsIntact": inputsIntact}
+}
+
+type jSeqMod struct {
+	T   int   `json:"t"`
+	Inc []int `json:"inc"` // indices of the source nodes (Incoming order)
+	Out []int `json:"out"` // indices of the target nodes (Outgoing order)
+}
+
+type jSeqNode struct {
+	V      uint64 `json:"v"`
+	Loaded bool   `json:"loaded"` // SensorLoad(v) was called (ActivationsCount = 1); otherwise a fresh hidden neuron
+}
+
+type jSeqNodeState struct {
+	A      uint64 `json:"a"`
+	Count  int    `json:"count"`
+	Active bool   `json:"active"`
+}
+
+type jSeqRes struct {
+	Err  string          `json:"err"`
+	Outs []jSeqNodeState `json:"outs"` // state of the module's target nodes right after its activation
+}
+
+// a sequence of 2-4 modules of pairwise different fan-in (1..6; decreasing, increasing or mixed order) on hand-built
+// control nodes, activated one after another through network.ActivateModule (the call of Network.ActivateSteps).
+// Source nodes are sensors loaded with the input value; a later module may read the output node of the previous one.
+// The error paths: a module type with 0 or 2 outgoing links (the module functions return one value), an unregistered
+// or scalar type code.
+func opActModuleSeq(g *G) (interface{}, []uint64, int, interface{}) {
+	k := 2 + g.intn(3)
+	fan := g.perm(6)[:k]
+	for i := range fan {
+		fan[i]++
+	}
+	shape := []string{"decreasing", "increasing", "mixed"}[g.intn(3)]
+	switch shape {
+	case "decreasing":
+		sort.Sort(sort.Reverse(sort.IntSlice(fan)))
+	case "increasing":
+		sort.Ints(fan)
+	default:
+		// as drawn; make sure that at least one module is narrower than its predecessor
+		if sort.IntsAreSorted(fan) {
+			fan[0], fan[k-1] = fan[k-1], fan[0]
+		}
+	}
+	var nodes []*network.NNode
+	var jn []jSeqNode
+	addNode := func(v float64, loaded bool) int {
+		var nd *network.NNode
+		if loaded {
+			nd = network.NewNNode(len(nodes)+1, network.InputNeuron)
+			nd.SensorLoad(v)
+		} else {
+			nd = network.NewNNode(len(nodes)+1, network.HiddenNeuron)
+		}
+		nodes = append(nodes, nd)
+		jn = append(jn, jSeqNode{V: bits(v), Loaded: loaded})
+		return len(nodes) - 1
+	}
+	sameType := -1
+	if g.chance(0.5) {
+		sameType = 21 + g.intn(3)
+	}
+	mods := make([]jSeqMod, 0, k)
+	res := make([]jSeqRes, 0, k)
+	fams := ""
+	prevOut := -1
+	for m := 0; m < k; m++ {
+		t := sameType
+		if t < 0 {
+			t = 21 + g.intn(3)
+		}
+		nOut := 1
+		switch r := g.intn(20); {
+		case r == 0:
+			nOut = 0
+		case r == 1:
+			nOut = 2
+		case r == 2:
+			t = []int{0, 1, 5, 20, 24, 100, 255}[g.intn(7)]
+		}
+		var xs []float64
+		var fam string
+		for {
+			xs, fam = moduleInputs(g)
+			if len(xs) >= fan[m] {
+				break
+			}
+		}
+		xs = xs[:fan[m]]
+		fams += fam[:2]
+		jm := jSeqMod{T: t, Inc: []int{}, Out: []int{}}
+		cn := network.NewNNode(1000+m, network.HiddenNeuron)
+		cn.ActivationType = neatmath.NodeActivationType(t)
+		// chained: one source is the output node of the previous module (when that holds a finite value)
+		chainAt := -1
+		if prevOut >= 0 && g.chance(0.3) {
+			if v := nodes[prevOut].GetActiveOut(); !math.IsInf(v, 0) && !math.IsNaN(v) {
+				chainAt = g.intn(len(xs))
+			}
+		}
+		for i, v := range xs {
+			idx := prevOut
+			if i != chainAt {
+				if g.chance(0.05) {
+					idx = addNode(v, false) // a source that was never activated: GetActiveOut = 0
+				} else {
+					idx = addNode(v, true)
+				}
+			}
+			cn.AddIncoming(nodes[idx], 1.0)
+			jm.Inc = append(jm.Inc, idx)
+		}
+		for i := 0; i < nOut; i++ {
+			idx := addNode(0, false)
+			cn.AddOutgoing(nodes[idx], 1.0)
+			jm.Out = append(jm.Out, idx)
+		}
+		err := network.ActivateModule(cn, neatmath.NodeActivators)
+		r := jSeqRes{Err: actErrClass(err), Outs: []jSeqNodeState{}}
+		if err != nil && strings.HasPrefix(err.Error(), "number of output parameters") {
+			r.Err = "outLen"
+		}
+		for _, idx := range jm.Out {
+			st := network.VerifNodeState_(nodes[idx])
+			r.Outs = append(r.Outs, jSeqNodeState{A: bits(st.Activation), Count: int(st.ActivationsCount), Active: st.IsActive})
+		}
+		mods = append(mods, jm)
+		res = append(res, r)
+		prevOut = -1
+		if err == nil && nOut > 0 {
+			prevOut = jm.Out[0]
+		}
+	}
+	final := make([]jSeqNodeState, len(nodes))
+	for i, nd := range nodes {
+		st := network.VerifNodeState_(nd)
+		final[i] = jSeqNodeState{A: bits(st.Activation), Count: int(st.ActivationsCount), Active: st.IsActive}
+	}
+	in := map[string]interface{}{"seq": true, "shape": shape, "family": fams, "nodes": jn, "mods": mods}
+	return in, nil, 0, map[string]interface{}{"mods": res, "final": final}
 }
 
 type jLookup struct {
